@@ -275,6 +275,22 @@ def generate(repo):
     out.append('Definition execdir_default : bytes := %s.\n' % cb(cstring(mm.group(1))))
     if norm(func_body(cc, 'config_default_get_steps', 'conf.c')) != DEFAULT_GET_STEPS:
         raise ValueError('conf.c: config_default_get_steps changed')
+    # ---- do the interpolations made while parsing name the configuration file? (findings/D16_interp_diag_path.diff)
+    ih = read(repo, 'interpolate.h')
+    ic = read(repo, 'interpolate.c')
+    has_field = bool(re.search(r'const char\s*\*path;', ih[ih.index('struct interpolate_arg'):]))
+    sites = [func_body(cc, 'config_parse_directory', 'conf.c'), func_body(cc, 'config_interpolate_early', 'conf.c'),
+             func_body(cc, 'config_default_build_dir', 'conf.c')]
+    npath = sum(1 for b in sites if re.search(r'\.path\s*=\s*cf->path,', b))
+    buf = func_body(ic, 'interpolate_buffer', 'interpolate.c')
+    if has_field and npath == 3 and re.search(r'\.path\s*=\s*arg->path,', buf):
+        interp_path = True
+    elif not has_field and npath == 0 and not re.search(r'\.path', buf):
+        interp_path = False
+    else:
+        raise ValueError('conf.c/interpolate.c: the parse-time interpolations neither all omit nor all pass the configuration path')
+    out.append('(* parse-time interpolation diagnostics %s the configuration path *)' % ('carry' if interp_path else 'do not carry'))
+    out.append('Definition interp_path : bool := %s.\n' % ('true' if interp_path else 'false'))
     # ---- rdomain
     rc = read(repo, 'conf-robsd-regress.c')
     mn = re.findall(r'^#define RDOMAIN_MIN\s+(\d+)$', rc, re.M)
@@ -350,7 +366,7 @@ def generate(repo):
             steps = []
         out.append('Definition %s_steps : list steprow := [\n  ' % p + ';\n  '.join(steps) + '].\n')
         out.append('Definition tables_%s : tables :=\n  mk_tables %s token_table (%s_grammar ++ common_grammar) %s_steps script_argv_template\n'
-                   '    regress_script canvas_end rdomain_min rdomain_max rdomain_fixed execdir_default depth_limit.\n' % (p, m, p, p))
+                   '    regress_script canvas_end rdomain_min rdomain_max rdomain_fixed execdir_default depth_limit interp_path.\n' % (p, m, p, p))
     ctab = re.search(r'static const struct config_callbacks \*\(\*callbacks\[\]\)\(void\) = \{(.*?)\};', cc, re.S)
     want = [(m, 'config_%s_callbacks' % MODE_PREFIX[m]) for m in MODES]
     if not ctab or re.findall(r'\[(\w+)\]\s*=\s*(\w+),', ctab.group(1)) != want:
